@@ -367,7 +367,7 @@ fn block_laws(b: &BlockView, report: &mut Report) {
         v.swap(0, 1);
         variants.push(("tx-swap", "transactions_root", b.as_advanced_builder().set_transactions(v).build()));
     }
-    for (name, _w, m) in tx_mutations(&txs[txs.len() - 1]) {
+    for (name, _w, m) in if txs.is_empty() { vec![] } else { tx_mutations(&txs[txs.len() - 1]) } {
         let mut v = txs.clone();
         let n = v.len();
         if m.data().as_slice() == v[n - 1].data().as_slice() {
@@ -375,6 +375,9 @@ fn block_laws(b: &BlockView, report: &mut Report) {
         }
         v[n - 1] = m;
         variants.push((name, "transactions_root", b.as_advanced_builder().set_transactions(v).build()));
+    }
+    if txs.is_empty() {
+        variants.push(("tx-added-to-empty-body", "transactions_root", b.as_advanced_builder().transaction(crate::zoo::transactions()[7].clone()).build()));
     }
     // proposals
     variants.push(("proposal+", "proposals_hash", b.as_advanced_builder().proposal(packed::ProposalShortId::new([0x42; 10])).build()));
